@@ -15,6 +15,7 @@ Suffixish(p, q, np, ter) ==
     IN  IsSuffixOf(c, Norm(p)) \/ IsSuffixOf(d, Norm(p)) \/ IsSuffixOf(q, Norm(p))
 Clauses(ev) ==
     CASE ev.e = "clean" -> CanonicalViol(ev.p, ev.q, ev.np, ev.ter) \cup V(ev.q2 = ev.q, "Idempotent")
+                           \cup V(ev.relocatedSame, "CleanPathUnchangedOnCopiedAndMovedModel")
                            \cup (IF Len(ev.p) <= 64 THEN V(Suffixish(ev.p, ev.q, ev.np, ev.ter), "OnlyRemovesPrefix") ELSE {})
       [] ev.e = "crash" -> {"NoCrash"}
       [] OTHER -> {}
